@@ -1,4 +1,5 @@
 import Proofs.Reflexive
+import Proofs.QueryShape
 import Proofs.MetaDelete
 
 /-!
@@ -291,5 +292,36 @@ example : Dom [aR] init opsR := by
   decide
 example : (run [aR] opsR).count = 3 ∧ sortReflexiveSt [aR] (run [aR] opsR) [2, 0, 1] "R1" "succeeds" = some [0, 1, 2] ∧
     sortReflexiveSt [aR] (run [aR] opsR) [2, 0, 1] "R1" "precedes" = some [2, 1, 0] := by decide
+
+end PyxProps.C16
+
+/-! ==========================================================================================================
+  SOURCE TIE of sort_reflexive  (section owned by the QueryShape extension)
+
+  translator/gen_queryshape.py reads xtuml.sort_reflexive with `ast` on every run: the empty-set guard, the
+  other-phrase search (its skip conditions, in order), the first-instance filter (a NEGATED navigation across the
+  GIVEN phrase), the fall-back to the set's first member, and the generator — for each first instance, `while inst:`
+  with the body statements in source order (yield if in the set, advance across the OTHER phrase, break when back at
+  the first instance) — and emits them as IR (lean/Gen/QueryShape.lean); any other shape raises (broken tie).
+  The theorem states that the model of PyxModel/Reflexive.lean IS the generic interpretation (Proofs/QueryShape.lean)
+  of the IR generated from the current source.
+  ========================================================================================================== -/
+namespace PyxProps.C16
+open Pyx.Meta Pyx.Query Pyx.Reflexive Pyx.QShape Pyx.Gen.QueryShape
+
+theorem sort_as_in_source (across back : Inst → Option Inst) (set : List Inst) (first x : Inst) (fuel : Nat)
+    (sch : Schema) (k : Kind) (rel phrase : String) :
+    walk back set first fuel x = iWalk walkBody across back set first fuel x ∧
+    firsts across set = iFirsts firstFiltNegated firstFiltPhrase across back set ∧
+    sortReflexive across back set fuel = iSort firstFiltNegated firstFiltPhrase walkBody across back set fuel ∧
+    otherPhrase sch k rel phrase = iOtherPhrase otherSkips sch k rel phrase :=
+  ⟨walk_eq across back set first fuel x, firsts_eq across back set, sortReflexive_eq across back set fuel,
+   otherPhrase_eq sch k rel phrase⟩
+
+/-! non-vacuity: the interpreted IR sorts the two chains of the example above; a body that advanced across the
+    GIVEN phrase (or did not stop at the first instance of a ring) is a different function -/
+example : iSort firstFiltNegated firstFiltPhrase walkBody ac bk [8, 3, 7, 1, 2] 5 = [7, 8, 1, 2, 3] := by decide
+example : iSort firstFiltNegated firstFiltPhrase [.yieldIfInSet, .advance .given, .breakIfIsFirst] ac bk [8, 3, 7, 1, 2] 5 = [7, 1] := by decide
+example : iOtherPhrase otherSkips [aR] 0 "R1" "precedes" = some "succeeds" := by decide
 
 end PyxProps.C16
